@@ -38,7 +38,7 @@ def cfg(tier, emit, variant='design', configs=None):
     c = 'INIT Init\nNEXT Next\nCHECK_DEADLOCK FALSE\nCONSTANTS\n MaxLayers = %d\n Variant = "%s"\n EmitOn = %s\n' % (1 if q else 2, variant, 'TRUE' if emit else 'FALSE')
     c += 'INVARIANT Emit\n' if emit else 'INVARIANT SnellLaw\nINVARIANT EnergyLaw\nINVARIANT FresnelLaw\nINVARIANT AbsenteeLaw\n'
     cs = CONFIGS if configs is None else configs
-    betas = BETAS_REAL[:5] if q else BETAS_REAL
+    betas = BETAS_REAL[:5]            # (thorough: two thin layers + substrate over the same 5 phase thicknesses; a 6th made the emission run exceed 50 min)
     d = dict(Configs='{%s}' % ', '.join('[n0 |-> %s, c0 |-> %s, s0 |-> %s, media |-> {%s}]' % (
         R(*k['n0']), R(*k['c0']), R(*k['s0']), ', '.join('<<%s, %s>>' % (GRat(m[0], m[1]), R(*m[2])) for m in k['media'])) for k in cs),
         Betas='{%s}' % ', '.join('<<%s, %s>>' % (GRat(*b[0]), GRat(*b[1])) for b in betas))
@@ -171,13 +171,13 @@ def run(ctx, replay_path=None, selftest=False, replay=None):
         fn(rec, ctx, np, T)
         return
     c, d = cfg(ctx.tier, False)
-    rl = ctx.tlc('ThinFilm', c, defs=d, name='laws', emit=False, coverage=False, timeout=3000)
+    rl = ctx.tlc('ThinFilm', c, defs=d, name='laws', emit=False, coverage=False, timeout=9000)
     if rl.distinct < 100:
         raise core.Machinery('ThinFilm laws explored only %d states' % rl.distinct)
     c, d = cfg('quick', False, variant='rp-pinned', configs=CONFIGS[1:2])
     ctx.tlc('ThinFilm', c, defs=d, name='pinned-rp', emit=False, must_hold=False, count=False, coverage=False, timeout=3000)
     thunks = [(lambda k=k: ctx.tlc('ThinFilm', cfg(ctx.tier, True, configs=[k])[0], defs=cfg(ctx.tier, True, configs=[k])[1], name='emit-config%d' % CONFIGS.index(k),
-                                   coverage=False, count=False, timeout=3000)) for k in CONFIGS]
+                                   coverage=False, count=False, timeout=9000)) for k in CONFIGS]
     recs = []
     for part in core.parallel(thunks):
         recs += part.records
